@@ -318,4 +318,20 @@ func ZZH_C13_prefix() {
 	}
 	zz.Assert("C13.prefix.count", len(vals) == want)
 	zz.Assert("C13.prefix.flag", ok == (want != 0))
+	// prefixes that end in the byte 0xff (binary keys): a key written now, read through the dirty set,
+	// after the commit (cache) and on a reopened ledger (database range scan)
+	bin := []byte{zz.U8("binValue")}
+	l.SetState(addr, []byte("c\xffz"), bin, nil)
+	l.SetState(addr, []byte("d"), []byte{1}, nil)
+	check := func(tag string, x *SimpleLedger) {
+		okb, vb := x.QueryByPrefix(addr, "c\xff")
+		zz.Assert("C13.prefix.ff."+tag, okb && len(vb) == 1 && zz.EqBytes(vb[0], bin))
+	}
+	check("dirty", l)
+	commitPending()
+	height++
+	zzCommit(l, height)
+	check("committed", l)
+	cache3, _ := NewAccountCache()
+	check("reopened", zzNewLedger(store, cache3))
 }
